@@ -6,6 +6,12 @@
 //	uf write <tree>    WriteUnknownFields                         => ok <hex> <length|->
 //	uf len <tree>      UnknownFieldsLength                        => ok <n> <bytes written|->
 //	uf wrt <tree>      Length, Write, Convert                     => ok <tree> <length> <bytes written>
+//
+// Every WriteUnknownFields call of this family is made several times, into destination buffers that hold
+// garbage (recycled memory: 0xAA, 0x0A, 0xFF, pseudo-random non-zero bytes; also a fresh zero buffer) and that
+// have exactly the advertised length or are longer; the reported bytes are the written prefix buf[:off].
+// The bytes written are the encoding of the tree whatever the buffer held (C13), so all runs give one result
+// and the op has one line; should they differ, the op gets one line per distinct result.
 package main
 
 import (
@@ -126,7 +132,64 @@ func runGet(kind string, b []byte) string {
 
 var getCount int
 
-func runRt(b []byte) string {
+// ---- destination buffers
+
+type bufKind struct {
+	fill  int // -1 fresh (zero) memory, -2 pseudo-random non-zero bytes, else the byte value
+	extra int // bytes beyond the requested length
+}
+
+// exact: for `uf rt` (the buffer has the advertised length, or more); roomy: on top of the generous bound
+var exactBufs = []bufKind{{-1, 0}, {0xaa, 0}, {0x0a, 0}, {-2, 0}, {0xff, 1}, {0xaa, 64}, {-2, 7}}
+var roomyBufs = []bufKind{{-1, 0}, {0xaa, 0}, {0x0a, 0}, {-2, 0}, {0xff, 13}}
+
+// mkBuf: the garbage is a function of the op text (key) only, so that a replay writes into the same memory
+func mkBuf(n int, k bufKind, key string) []byte {
+	buf := make([]byte, max(n, 0)+k.extra)
+	switch {
+	case k.fill == -1:
+	case k.fill == -2:
+		h := uint64(14695981039346656037)
+		for i := 0; i < len(key); i++ {
+			h = (h ^ uint64(key[i])) * 1099511628211
+		}
+		h ^= uint64(k.extra+1) * 0x9e3779b97f4a7c15
+		for i := range buf {
+			h ^= h << 13
+			h ^= h >> 7
+			h ^= h << 17
+			if buf[i] = byte(h >> 24); buf[i] == 0 {
+				buf[i] = 0x55
+			}
+		}
+	default:
+		for i := range buf {
+			buf[i] = byte(k.fill)
+		}
+	}
+	return buf
+}
+
+// distinct runs f on every kind of buffer and returns the distinct results in order of first appearance
+func distinct(kinds []bufKind, f func(k bufKind) string) []string {
+	var out []string
+next:
+	for _, k := range kinds {
+		r := f(k)
+		for _, o := range out {
+			if o == r {
+				continue next
+			}
+		}
+		out = append(out, r)
+	}
+	if len(out) > 1 {
+		em.Count("dirty-buffer:results-differ")
+	}
+	return out
+}
+
+func runRt(b []byte) []string {
 	var fs []uf.UnknownField
 	res := guard(func() string {
 		var err error
@@ -137,24 +200,27 @@ func runRt(b []byte) string {
 		return ""
 	})
 	if res != "" {
+		return []string{res}
+	}
+	key := lib.Hex(b)
+	return distinct(exactBufs, func(k bufKind) string {
+		res := guard(func() string {
+			n, err := uf.UnknownFieldsLength(fs)
+			if err != nil {
+				return "err " + errClass(err)
+			}
+			buf := mkBuf(n, k, key)
+			off, err := uf.WriteUnknownFields(buf, fs)
+			if err != nil {
+				return "err " + errClass(err)
+			}
+			return fmt.Sprintf("ok %s %d", lib.Hex(buf[:off]), n)
+		})
+		if strings.HasPrefix(res, "PANIC ") {
+			return "W" + res
+		}
 		return res
-	}
-	res = guard(func() string {
-		n, err := uf.UnknownFieldsLength(fs)
-		if err != nil {
-			return "err " + errClass(err)
-		}
-		buf := make([]byte, n)
-		off, err := uf.WriteUnknownFields(buf, fs)
-		if err != nil {
-			return "err " + errClass(err)
-		}
-		return fmt.Sprintf("ok %s %d", lib.Hex(buf[:off]), n)
 	})
-	if strings.HasPrefix(res, "PANIC ") {
-		return "W" + res
-	}
-	return res
 }
 
 // tryLen / tryWrite: the other half of the (computed length, bytes written) pair every tree line carries;
@@ -173,15 +239,15 @@ func tryLen(fs []uf.UnknownField) (s string, n int) {
 	return
 }
 
-func bigBuf(fs []uf.UnknownField, n int) []byte {
-	return make([]byte, max(n, 0)+lib.UfSizeBound(fs))
+func bigBuf(fs []uf.UnknownField, n int, k bufKind, key string) []byte {
+	return mkBuf(max(n, 0)+lib.UfSizeBound(fs), k, key)
 }
 
-func tryWrite(fs []uf.UnknownField) (s string) {
+func tryWrite(fs []uf.UnknownField, k bufKind, key string) (s string) {
 	s = "-"
 	func() {
 		defer func() { recover() }()
-		off, err := uf.WriteUnknownFields(bigBuf(fs, 0), fs)
+		off, err := uf.WriteUnknownFields(bigBuf(fs, 0, k, key), fs)
 		if err == nil {
 			s = fmt.Sprint(off)
 		}
@@ -190,50 +256,72 @@ func tryWrite(fs []uf.UnknownField) (s string) {
 }
 
 // uf len <tree> => ok <length> <bytes written | ->
-func runLen(fs []uf.UnknownField) string {
-	return guard(func() string {
-		n, err := uf.UnknownFieldsLength(fs)
-		if err != nil {
-			return "err " + errClass(err)
-		}
-		return fmt.Sprintf("ok %d %s", n, tryWrite(fs))
+func runLen(fs []uf.UnknownField, key string) []string {
+	return distinct(roomyBufs, func(k bufKind) string {
+		return guard(func() string {
+			n, err := uf.UnknownFieldsLength(fs)
+			if err != nil {
+				return "err " + errClass(err)
+			}
+			return fmt.Sprintf("ok %d %s", n, tryWrite(fs, k, key))
+		})
 	})
 }
 
 // uf write <tree> => ok <hex written> <length | ->
-func runWrite(fs []uf.UnknownField) string {
-	return guard(func() string {
-		ls, n := tryLen(fs)
-		buf := bigBuf(fs, n)
-		off, err := uf.WriteUnknownFields(buf, fs)
-		if err != nil {
-			return "err " + errClass(err)
-		}
-		return "ok " + lib.Hex(buf[:off]) + " " + ls
+func runWrite(fs []uf.UnknownField, key string) []string {
+	return distinct(roomyBufs, func(k bufKind) string {
+		return guard(func() string {
+			ls, n := tryLen(fs)
+			buf := bigBuf(fs, n, k, key)
+			off, err := uf.WriteUnknownFields(buf, fs)
+			if err != nil {
+				return "err " + errClass(err)
+			}
+			return "ok " + lib.Hex(buf[:off]) + " " + ls
+		})
 	})
 }
 
-// uf wrt <tree> => ok <tree converted back> <length> <bytes written>
-func runWrt(fs []uf.UnknownField) string {
-	return guard(func() string {
-		n, err := uf.UnknownFieldsLength(fs)
-		if err != nil {
-			return "err " + errClass(err)
-		}
-		buf := bigBuf(fs, n)
-		off, err := uf.WriteUnknownFields(buf, fs)
-		if err != nil {
-			return "err " + errClass(err)
-		}
-		if mx, sum := lib.UfMaxDeclared(buf[:off]); mx > maxDeclared || sum > maxDeclaredSum {
-			return "SKIP" // an ill-typed tree can write bytes that declare a hostile size: not replayed
-		}
-		back, err := uf.ConvertUnknownFields(buf[:off])
-		if err != nil {
-			return "err " + errClass(err)
-		}
-		return fmt.Sprintf("ok %s %d %d", lib.UfShow(back), n, off)
+// uf wrt <tree> => ok <tree converted back> <length> <bytes written>   (nil: not replayed, see SKIP)
+func runWrt(fs []uf.UnknownField, key string) []string {
+	rs := distinct(roomyBufs, func(k bufKind) string {
+		return guard(func() string {
+			n, err := uf.UnknownFieldsLength(fs)
+			if err != nil {
+				return "err " + errClass(err)
+			}
+			buf := bigBuf(fs, n, k, key)
+			off, err := uf.WriteUnknownFields(buf, fs)
+			if err != nil {
+				return "err " + errClass(err)
+			}
+			if mx, sum := lib.UfMaxDeclared(buf[:off]); mx > maxDeclared || sum > maxDeclaredSum {
+				return "SKIP" // an ill-typed tree can write bytes that declare a hostile size: not replayed
+			}
+			back, err := uf.ConvertUnknownFields(buf[:off])
+			if err != nil {
+				return "err " + errClass(err)
+			}
+			return fmt.Sprintf("ok %s %d %d", lib.UfShow(back), n, off)
+		})
 	})
+	if rs[0] == "SKIP" {
+		return nil
+	}
+	out := rs[:0]
+	for _, r := range rs {
+		if r != "SKIP" {
+			out = append(out, r)
+		}
+	}
+	return out
+}
+
+func emitAll(rs []string, fields ...string) {
+	for _, r := range rs {
+		em.Line(r, fields...)
+	}
 }
 
 func firstTok(s string) string {
@@ -274,7 +362,7 @@ func emitBytes(class string, b []byte, trees bool) {
 	res := runConvert(b)
 	em.Count("convert:" + firstTok(res))
 	em.Line(res, "uf", "convert", hx)
-	em.Line(runRt(b), "uf", "rt", hx)
+	emitAll(runRt(b), "uf", "rt", hx)
 	// the reflect wrapper on the same bytes: pointer / value alternately, the misuse kinds now and then
 	getCount++
 	kind := getKinds[getCount%2]
@@ -295,14 +383,14 @@ func emitTree(class string, t string) {
 		panic("harness: bad tree text " + t)
 	}
 	em.Count("tree:" + class)
-	res := runWrite(fs)
-	em.Count("write:" + firstTok(res))
-	em.Line(res, "uf", "write", t)
-	res = runLen(fs)
-	em.Count("length:" + firstTok(res))
-	em.Line(res, "uf", "len", t)
-	if res = runWrt(fs); res != "SKIP" {
-		em.Line(res, "uf", "wrt", t)
+	rs := runWrite(fs, t)
+	em.Count("write:" + firstTok(rs[0]))
+	emitAll(rs, "uf", "write", t)
+	rs = runLen(fs, t)
+	em.Count("length:" + firstTok(rs[0]))
+	emitAll(rs, "uf", "len", t)
+	if rs = runWrt(fs, t); rs != nil {
+		emitAll(rs, "uf", "wrt", t)
 	} else {
 		em.Count("guard:alloc-capped")
 	}
@@ -708,7 +796,7 @@ func replay(lines [][]string) {
 		if len(f) != 3 || f[0] != "uf" {
 			continue
 		}
-		var res string
+		var rs []string
 		switch f[1] {
 		case "convert", "rt":
 			b := lib.UnHex(f[2])
@@ -716,9 +804,9 @@ func replay(lines [][]string) {
 				continue
 			}
 			if f[1] == "convert" {
-				res = runConvert(b)
+				rs = []string{runConvert(b)}
 			} else {
-				res = runRt(b)
+				rs = runRt(b)
 			}
 		case "write", "len", "wrt":
 			fs, ok := lib.UfParse(f[2])
@@ -727,18 +815,16 @@ func replay(lines [][]string) {
 			}
 			switch f[1] {
 			case "write":
-				res = runWrite(fs)
+				rs = runWrite(fs, f[2])
 			case "len":
-				res = runLen(fs)
+				rs = runLen(fs, f[2])
 			default:
-				if res = runWrt(fs); res == "SKIP" {
-					continue
-				}
+				rs = runWrt(fs, f[2])
 			}
 		default:
 			continue
 		}
-		em.Line(res, f...)
+		emitAll(rs, f...)
 	}
 }
 
